@@ -92,6 +92,7 @@ func cmdCheck(args []string) int {
 	rc := report(res, *repo, *verif, seed, !*noEvidence, time.Since(t0).Seconds())
 	if rc == 0 && *tier == "thorough" {
 		// thorough tier additionally runs the must-fail corpus for this property
+		crossCheck = false // the must-fail corpus is run with the portfolio's first definite answer
 		if n := runSelftest(*repo, *verif, prop, false); n != 0 {
 			fmt.Printf("BROKEN: self-test corpus of %s has %d unexpected results\n", prop, n)
 			return 2
@@ -348,6 +349,8 @@ func cmdSelftest(args []string) int {
 }
 
 func runSelftest(repo, verif, prop string, verbose bool) int {
+	retryUndecided = false
+	defer func() { retryUndecided = true }()
 	data, err := os.ReadFile(filepath.Join(verif, "selftest", prop+".json"))
 	if err != nil {
 		return 0
